@@ -326,12 +326,47 @@ def write_ndjson(path, events):
             f.write('\n')
 
 
+# census of what the drivers actually executed: {trace module: {event name: count}}; written into the evidence
+# (coverage.events_executed / events_never_executed) so that a spec action no driver ever runs is visible
+EVENT_CENSUS = {}
+
+
+def _handled_events(module):
+    """event names the trace spec has a disjunct for (read from its text and from the trace module it extends)"""
+    names = set()
+    for mod in (module, module[3:] if module.startswith('MC_') else module):
+        path = os.path.join(SPEC_DIR, mod + '.tla')
+        if os.path.exists(path):
+            with open(path) as f:
+                names.update(re.findall(r'\.ev\s*=\s*"([A-Za-z_]+)"', f.read()))
+    names.discard('End')
+    return names
+
+
+def _census(module, traces):
+    c = EVENT_CENSUS.setdefault(module, {})
+    for n in _handled_events(module):
+        c.setdefault(n, 0)
+    for _tid, events in traces:
+        for ev in events:
+            n = ev.get('ev')
+            if n is not None:
+                c[n] = c.get(n, 0) + 1
+                for k in ('act', 'action', 'kind', 'op', 'call', 'what', 'mode', 'outcome', 'when', 'place'):
+                    v = ev.get(k)
+                    if v is None and isinstance(ev.get('a'), dict):
+                        v = ev['a'].get(k)
+                    if isinstance(v, str) and len(v) < 40:
+                        c['%s:%s=%s' % (n, k, v)] = c.get('%s:%s=%s' % (n, k, v), 0) + 1
+
+
 def validate_traces(module, cfg, traces, jobs=None, chunk=4000, timeout=3600, tag=None, env=None, stack=None):
     """traces: list of (tid, [event dict, ...]).  Every event gets 'tid'; an {'ev': 'End'} is appended.
     The trace spec prints <<"VERDICT", tid, verdict-string>> for each trace and the run must end
     with all lines consumed (POSTCONDITION in the cfg).  Returns ({tid: verdict}, states, transitions)."""
     if not traces:
         return {}, 0, 0
+    _census(module, traces)
     jobs = jobs or min(16, os.cpu_count() or 4)
     wd = workdir(tag or (module + '_tr'))
     chunks = [traces[i:i + chunk] for i in range(0, len(traces), chunk)]
@@ -510,6 +545,8 @@ class Report(object):
         if self.exhaustive is not None:
             cov['exhaustive'] = bool(self.exhaustive)
         cov.update(self.extra)
+        cov['events_executed'] = {m: dict(sorted(c.items())) for m, c in sorted(EVENT_CENSUS.items())}
+        cov['events_never_executed'] = sorted('%s.%s' % (m, n) for m, c in EVENT_CENSUS.items() for n, k in c.items() if k == 0)
         ev = {
             'property_id': self.prop,
             'tier': self.tier,
